@@ -113,6 +113,26 @@ func ParamCases(seed int64, n int) []Case {
 	od.Op("/things", "get", M{"parameters": L{ParamNode("tags", "query", false, Arr(Prim("integer", "")))}})
 	od.PathItem("/things")["parameters"] = L{ParamNode("tags", "query", true, Arr(Prim("string", ""))), ParamNode("only", "query", true, Prim("boolean", ""))}
 	out = append(out, Case{ID: "params-override", Family: "params", Spec: od.Root, Flags: Flags{Client: true}, Safe: true, Label: map[string]string{"set": "override"}})
+	// raw (non-JSON) request bodies next to parameters
+	rb := NewDoc("rawbody")
+	bin := M{"type": "string", "format": "binary"}
+	rb.Op("/upload/{id}", "post", M{
+		"parameters":  L{ParamNode("id", "path", true, Prim("string", "")), ParamNode("note", "query", false, Prim("string", "")), ParamNode("X-Sum", "header", true, Prim("integer", "int64"))},
+		"requestBody": M{"required": true, "content": M{"application/octet-stream": M{"schema": bin}}},
+		"responses":   M{"204": M{"description": "ok"}, "default": M{"description": "e"}},
+	})
+	rb.Op("/text", "put", M{"requestBody": M{"content": M{"text/plain": M{"schema": Prim("string", "")}}}})
+	rb.Comp("requestBodies", "Blob", M{"content": M{"application/octet-stream": M{"schema": bin}}})
+	rb.Op("/blob", "patch", M{"requestBody": Ref("requestBodies", "Blob"), "parameters": L{ParamNode("tags", "query", false, Arr(Prim("string", "")))}})
+	out = append(out, Case{ID: "params-raw-body", Family: "params", Spec: rb.Root, Flags: Flags{Client: true}, Safe: true, Label: map[string]string{"set": "raw-body"}})
+	// arrays whose items are component schemas
+	ai := NewDoc("arrayitems")
+	ai.Comp("schemas", "Tag", Prim("string", ""))
+	ai.Comp("schemas", "Num", Prim("integer", "int64"))
+	ai.Op("/items", "get", M{"parameters": L{ParamNode("tag", "query", false, Arr(Ref("schemas", "Tag")))}})
+	ai.Op("/nums", "get", M{"parameters": L{ParamNode("n", "query", true, Arr(Ref("schemas", "Num")))}})
+	ai.Op("/plain", "get", M{"parameters": L{ParamNode("tag", "query", true, Arr(Prim("string", "")))}})
+	out = append(out, Case{ID: "params-array-items-ref", Family: "params", Spec: ai.Root, Flags: Flags{Client: true}, Safe: true, Label: map[string]string{"set": "array-items-ref"}})
 	// seeded multi-parameter operations
 	rng := rand.New(rand.NewSource(seed*53 + 11))
 	for i := 0; i < n; i++ {
